@@ -476,7 +476,7 @@ Proof.
   apply lookup_del_other. exact Hk.
 Qed.
 
-Definition entry_of (o : op) : entry := match o with Write _ c => Bytes c | Relink _ t => Symlink t end.
+Definition entry_of (o : op) : entry := match o with Write _ c | WritePage _ c => Bytes c | Relink _ t => Symlink t end.
 (* the step without write-through *)
 Definition step' (d : fsmap) (o : op) : fsmap := set_entry (op_name o) (entry_of o) d.
 
@@ -517,41 +517,49 @@ Proof.
   intros [Hx|Hr]; [subst n; rewrite text_eqb_refl in Ex; discriminate|]. exact (IH eq_refl Hr).
 Qed.
 
-Definition symlinks_in (d : fsmap) (R : list text) : Prop :=
-  forall n t, lookup n d = Some (Symlink t) -> In n R.
+(* no symbolic link sits at a name of W *)
+Definition nosym_at (W : list text) (d : fsmap) : Prop :=
+  forall n t, lookup n d = Some (Symlink t) -> ~ In n W.
 
-(* when no written name can be a symlink, open('wb') never writes through a link *)
-Lemma apply_ops_no_write_through : forall R ops d,
-  (forall n, In n (write_names ops) -> ~ In n R) ->
-  (forall n, In n (relink_names ops) -> In n R) ->
-  symlinks_in d R -> apply_ops ops d = fold_left step' ops d.
+(* when no name opened with a following open() can be a symlink, nothing is ever written through a link *)
+Lemma apply_ops_no_write_through : forall W ops d,
+  (forall n, In n (write_names ops) -> In n W) ->
+  (forall n, In n (relink_names ops) -> ~ In n W) ->
+  nosym_at W d -> apply_ops ops d = fold_left step' ops d.
 Proof.
-  intros R. unfold apply_ops. induction ops as [|o r IH]; intros d HW HR Hs; cbn [fold_left]; [reflexivity|].
+  intros W. unfold apply_ops. induction ops as [|o r IH]; intros d HW HR Hs; cbn [fold_left]; [reflexivity|].
   assert (Estep : step d o = step' d o).
-  { destruct o as [n c|n t]; [|reflexivity]. cbn [step]. unfold step'. cbn [op_name entry_of].
+  { destruct o as [n c|n c|n t]; [|reflexivity|reflexivity]. cbn [step]. unfold step'. cbn [op_name entry_of].
     destruct (lookup n d) as [[c'|t]|] eqn:El; try reflexivity.
-    exfalso. apply (HW n); [cbn [write_names flat_map]; left; reflexivity|]. eapply Hs. exact El. }
+    exfalso. apply (Hs n t El). apply HW. cbn [write_names flat_map]. left. reflexivity. }
   rewrite Estep. apply IH.
   - intros n Hn. apply HW. cbn [write_names flat_map]. apply in_or_app. right. exact Hn.
   - intros n Hn. apply HR. cbn [relink_names flat_map]. apply in_or_app. right. exact Hn.
   - intros n t Hl. unfold step' in Hl.
     destruct (text_eqb (op_name o) n) eqn:E.
     + apply text_eqb_eq in E. subst n. rewrite lookup_set_same in Hl.
-      destruct o as [n c|n t']; cbn [entry_of op_name] in *; [discriminate|].
+      destruct o as [n c|n c|n t']; cbn [entry_of op_name] in *; try discriminate.
       apply HR. cbn [relink_names flat_map]. left. reflexivity.
     + rewrite lookup_set_other in Hl by (intros ->; rewrite text_eqb_refl in E; discriminate).
       eapply Hs. exact Hl.
 Qed.
 
+Lemma relinks_not_written : forall ops,
+  (forall n, In n (write_names ops) -> ~ In n (relink_names ops)) ->
+  forall n, In n (relink_names ops) -> ~ In n (write_names ops).
+Proof. intros ops HW n Hr Hw. exact (HW n Hw Hr). Qed.
+
+(* the previous content may hold ANY entry at the names the run touches, except a symbolic link at a name that is
+   opened with a link-following open() *)
 Theorem overwrite_complete : forall ops prev,
   (forall n, In n (write_names ops) -> ~ In n (relink_names ops)) ->
   (forall n e, lookup n prev = Some e -> In n (map op_name ops)) ->
-  (forall n t, lookup n prev = Some (Symlink t) -> In n (relink_names ops)) ->
+  (forall n t, lookup n prev = Some (Symlink t) -> ~ In n (write_names ops)) ->
   same_dir (apply_ops ops prev) (apply_ops ops []).
 Proof.
   intros ops prev HW Hdom Hsym n.
-  rewrite (apply_ops_no_write_through (relink_names ops) ops prev HW (fun _ H => H) Hsym).
-  rewrite (apply_ops_no_write_through (relink_names ops) ops [] HW (fun _ H => H))
+  rewrite (apply_ops_no_write_through (write_names ops) ops prev (fun _ H => H) (relinks_not_written ops HW) Hsym).
+  rewrite (apply_ops_no_write_through (write_names ops) ops [] (fun _ H => H) (relinks_not_written ops HW))
     by (intros k t Hl; discriminate).
   rewrite !lookup_fold_step'. destruct (last_op n ops) eqn:E; [reflexivity|].
   cbn [lookup]. destruct (lookup n prev) eqn:El; [|reflexivity].
@@ -565,16 +573,17 @@ Theorem rerun_same_output : forall ops,
 Proof.
   intros ops HW. apply overwrite_complete; [exact HW| |].
   - intros n e Hl.
-    rewrite (apply_ops_no_write_through (relink_names ops) ops [] HW (fun _ H => H)) in Hl
+    rewrite (apply_ops_no_write_through (write_names ops) ops [] (fun _ H => H) (relinks_not_written ops HW)) in Hl
       by (intros k t Hk; discriminate).
     rewrite lookup_fold_step' in Hl. destruct (last_op n ops) eqn:E; [|discriminate].
     apply last_op_some in E as [Hi Hn]. subst n. apply in_map. exact Hi.
   - intros n t Hl.
-    rewrite (apply_ops_no_write_through (relink_names ops) ops [] HW (fun _ H => H)) in Hl
+    rewrite (apply_ops_no_write_through (write_names ops) ops [] (fun _ H => H) (relinks_not_written ops HW)) in Hl
       by (intros k t' Hk; discriminate).
     rewrite lookup_fold_step' in Hl. destruct (last_op n ops) eqn:E; [|discriminate].
     apply last_op_some in E as [Hi Hn]. inversion Hl as [He].
-    destruct o as [n' c|n' t']; cbn [entry_of op_name] in *; [discriminate|]. subst n'.
+    destruct o as [n' c|n' c|n' t']; cbn [entry_of op_name] in *; try discriminate. subst n'.
+    apply (relinks_not_written ops HW).
     unfold relink_names. apply in_flat_map. exists (Relink n t'). split; [exact Hi|left; reflexivity].
 Qed.
 
@@ -677,15 +686,16 @@ Qed.
 Theorem writes_commute : forall ops1 ops2 d,
   Permutation ops1 ops2 -> NoDup (map op_name ops1) ->
   (forall n, In n (write_names ops1) -> ~ In n (relink_names ops1)) ->
-  symlinks_in d (relink_names ops1) ->
+  nosym_at (write_names ops1) d ->
   same_dir (apply_ops ops1 d) (apply_ops ops2 d).
 Proof.
   intros ops1 ops2 d Hp Hn HW Hs n.
-  rewrite (apply_ops_no_write_through (relink_names ops1) ops1 d HW (fun _ H => H) Hs).
-  rewrite (apply_ops_no_write_through (relink_names ops1) ops2 d).
+  rewrite (apply_ops_no_write_through (write_names ops1) ops1 d (fun _ H => H) (relinks_not_written ops1 HW) Hs).
+  rewrite (apply_ops_no_write_through (write_names ops1) ops2 d).
   - rewrite !lookup_fold_step'. rewrite (last_op_perm ops1 ops2 n Hp Hn). reflexivity.
-  - intros k Hk. apply HW. unfold write_names in *. eapply in_flat_map_perm; [apply Permutation_sym; exact Hp|exact Hk].
-  - intros k Hk. unfold relink_names in *. eapply in_flat_map_perm; [apply Permutation_sym; exact Hp|exact Hk].
+  - intros k Hk. unfold write_names in *. eapply in_flat_map_perm; [apply Permutation_sym; exact Hp|exact Hk].
+  - intros k Hk. apply (relinks_not_written ops1 HW). unfold relink_names in *.
+    eapply in_flat_map_perm; [apply Permutation_sym; exact Hp|exact Hk].
   - exact Hs.
 Qed.
 
